@@ -91,3 +91,18 @@ Proof.
   cbn. assert (E : GivensThm.NR (@fq0 ROps) = 0%R) by (unfold GivensThm.NR; cbn; ring). rewrite E, Rplus_0_r, sqrt_0. apply Rle_refl.
 Qed.
 Print Assumptions C16_hessenberg_sweep_with_zero_pairs.
+
+(* the solution of a triangular system with non-zero diagonal entries is unique (over the real quaternions): what the solvers return, once it
+   satisfies U X = B, is THE solution *)
+From QV Require Import CRingR.
+From QVT Require Import Kernel TriUnique.
+Theorem C16_upper_triangular_kernel_is_zero : forall n (U : qmat RR) (x : nat -> quat RR),
+  (forall i j, i < n -> j < i -> U i j = qzero) -> (forall i, i < n -> U i i <> qzero) ->
+  (forall r, r < n -> sumQ n (fun j => qmul (U r j) (x j)) = qzero) -> forall i, i < n -> x i = qzero.
+Proof. exact upper_triangular_kernel_is_zero. Qed.
+Theorem C16_upper_triangular_solution_is_unique : forall n p (U X Y B : qmat RR),
+  (forall i j, i < n -> j < i -> U i j = qzero) -> (forall i, i < n -> U i i <> qzero) ->
+  meq n p (qmm n U X) B -> meq n p (qmm n U Y) B -> meq n p X Y.
+Proof. exact upper_triangular_solution_is_unique. Qed.
+Print Assumptions C16_upper_triangular_kernel_is_zero.
+Print Assumptions C16_upper_triangular_solution_is_unique.
